@@ -21,6 +21,12 @@ def val_to_json(v, world=None):
         return [val_to_json(x, world) for x in v]
     if isinstance(v, dict):
         return {'d': [[val_to_json(k, world) for k in v], [val_to_json(x, world) for x in v.values()]]}
+    import pathlib
+    if isinstance(v, pathlib.PurePath):
+        # a path is not the string that spells it
+        return {'app': ['$path', [v.as_posix()], [], []]}
+    if isinstance(v, bytes):
+        return {'app': ['$bytes', [v.decode('latin1')], [], []]}
     if isinstance(v, (set, frozenset)):
         items = sorted((val_to_json(x, world) for x in v), key=lambda j: json.dumps(j, sort_keys=True))
         return {'app': ['$set', items, [], []]}
